@@ -3,6 +3,11 @@ open Biogo.Properties.C08_aff
 #print axioms globalOpt_optimal
 #print axioms localOpt_optimal
 #print axioms fittedOpt_optimal
+#print axioms nwAffine_opt
+#print axioms swAffine_opt
+#print axioms fittedAffine_opt
+#print axioms k1_repair_conservative_nw
+#print axioms k1_repair_conservative_sw
 #print axioms nwAffine_opt_partial
 #print axioms swAffine_opt_partial
 #print axioms fittedAffine_opt_partial
